@@ -31,16 +31,23 @@ let parse_pref (s : string) : pref option =
   | _ -> failwith "bad pref"
 
 let cache_key = ref ""
-let cache : ((n * n option * n option) list * (n -> n option) * (n -> n option) * n ring * (n * strategy) list) option ref = ref None
+let cache : ((n * n option * n option) list * (n -> n option) * (n -> n option) * n ring * (n * strategy) list * (n -> (n * n) option)) option ref = ref None
 
 let topo nodes_s ring_s ks_s =
   let key = nodes_s ^ " " ^ ring_s ^ " " ^ ks_s in
   (match !cache with
    | Some _ when !cache_key = key -> ()
    | _ ->
-     let nodes = List.map (fun e -> match String.split_on_char '.' e with
-         | [i; d; r] -> (n_of_hex i, opt_n d, opt_n r)
+     let parse_sharder x = if x = "_" then None else
+         (match String.split_on_char '-' x with
+          | [nr; msb] -> Some (n_of_hex nr, n_of_hex msb)
+          | _ -> failwith "bad sharder") in
+     let nodes4 = List.map (fun e -> match String.split_on_char '.' e with
+         | [i; d; r] -> (n_of_hex i, opt_n d, opt_n r, None)
+         | [i; d; r; sh] -> (n_of_hex i, opt_n d, opt_n r, parse_sharder sh)
          | _ -> failwith "bad node") (split_on ',' nodes_s) in
+     let nodes = List.map (fun (i, d, r, _) -> (i, d, r)) nodes4 in
+     let shl = List.map (fun (i, _, _, sh) -> (i, sh)) nodes4 in
      let dcl = List.map (fun (i, d, _) -> (i, d)) nodes and rkl = List.map (fun (i, _, r) -> (i, r)) nodes in
      let entries = if ring_s = "-" then [] else List.map (fun e ->
          let k = String.rindex e '.' in
@@ -50,7 +57,7 @@ let topo nodes_s ring_s ks_s =
      let g = sort_ring raw in
      let kss = if ks_s = "-" then [] else
          List.mapi (fun i s -> (n_of_int i, parse_strat s)) (String.split_on_char ';' ks_s) in
-     cache := Some (nodes, assoc_opt dcl, assoc_opt rkl, g, kss); cache_key := key);
+     cache := Some (nodes, assoc_opt dcl, assoc_opt rkl, g, kss, assoc_pair shl); cache_key := key);
   match !cache with Some c -> c | None -> assert false
 
 (* "id:shard" -> (id, shard option) *)
@@ -61,8 +68,45 @@ let parse_tgts s = if s = "-" then [] else List.map parse_tgt (split_on ',' s)
 
 let verdict case impl =
   match case with
+  | ["L"; nodes_s; ring_s; ks_s; flags1_s; flags2_s; pol_s; req_s] ->
+    let (nodes, dcf, rackf, g, kss, _sharderf) = topo nodes_s ring_s ks_s in
+    let mk fs = let fl = List.mapi (fun i (id, _, _) -> (id, fs.[i])) nodes in
+      let flag n = try List.assoc n fl with Not_found -> 'd' in
+      ((fun n -> flag n <> 'd'), (fun n -> flag n = 'c')) in
+    let (en1, co1) = mk flags1_s and (en2, co2) = mk flags2_s in
+    let pol = match String.split_on_char '/' pol_s with
+      | [p; ta; fo; _sh] -> { pol_pref = parse_pref p; pol_token_aware = (ta = "1"); pol_failover = (fo = "1") }
+      | _ -> failwith "bad policy" in
+    let rq = match String.split_on_char '/' req_s with
+      | [tok; ks; lwt; p] ->
+        { rq_token = (if tok = "_" then None else Some (z_of_hex tok));
+          rq_ks = (match ks with "_" -> None | "u" -> Some (n_of_int 999) | i -> Some (n_of_hex i));
+          rq_lwt = (lwt <> "0");
+          rq_pref = (match parse_pref p with Some x -> x | None -> PAny) }
+      | _ -> failwith "bad request" in
+    (match impl with
+     | ["panic"] -> "viol panic"
+     | [pl] ->
+       (match List.map fst (parse_tgts pl) with
+        | [] -> "diff two-reads empty plan although pick() yields a target"
+        | h :: rest ->
+          let pk1 = pick_matches dcf rackf g kss en1 co1 pol rq (Some h) in
+          let pm2 = plan_matches dcf rackf g kss en2 co2 pol rq in
+          let rec inserts pre post = (List.rev_append pre (h :: post)) ::
+                                     (match post with [] -> [] | x :: r -> inserts (x :: pre) r) in
+          (* C05_two_reads_safe: the rest is the later fallback plan, with the picked target removed
+             if it was in it *)
+          let structure = pk1 && (pm2 rest || (not (mem h rest) && List.exists pm2 (inserts [] rest))) in
+          if structure then "ok"
+          else begin
+            (* what must survive a liveness change: enabled when chosen, permitted, the rest duplicate-free *)
+            let perm n = permitted dcf g pol rq n in
+            let safe = en1 h && perm h && List.for_all (fun n -> en2 n && perm n) rest && nodupb rest in
+            (if safe then "diff" else "viol") ^ Printf.sprintf " two-reads pick=%b plan=%s" pk1 (string_of_nlist (h :: rest))
+          end)
+     | _ -> "error bad-impl-output")
   | ["P"; nodes_s; ring_s; ks_s; flags_s; pol_s; req_s] ->
-    let (nodes, dcf, rackf, g, kss) = topo nodes_s ring_s ks_s in
+    let (nodes, dcf, rackf, g, kss, sharderf) = topo nodes_s ring_s ks_s in
     let fl = List.mapi (fun i (id, _, _) -> (id, flags_s.[i])) nodes in
     let flag n = try List.assoc n fl with Not_found -> 'd' in
     let enabled n = flag n <> 'd' and connected n = flag n = 'c' in
@@ -93,11 +137,17 @@ let verdict case impl =
        let fb_ok = pm (nodes_of fb) in
        let pick_ok = pk (match pick with None -> None | Some (n, _) -> Some n) in
        let heads_ok = List.for_all head_ok plans && (fb = [] || head_ok fb) in
-       (* shard annotations: replicas carry the token's shard (0 without a sharder), other nodes none *)
+       (* shard annotations: replicas carry the token's shard on that node (with_computed_shard,
+          0 without a sharder), other nodes none in pick()/fallback() and a random shard below the
+          node's shard count in a Plan *)
+       let shf n = match rq.rq_token with Some t -> computed_shard sharderf t n | None -> N0 in
+       let below n s = match sharderf n with Some (nr, _) -> int_of_n s < int_of_n nr | None -> s = N0 in
        let ann_ok =
-         List.for_all (fun (n, s) -> match s with Some s -> s = N0 && grp n < 3 | None -> grp n >= 3) fb
-         && (match pick with Some (n, Some s) -> s = N0 && grp n < 3 | Some (n, None) -> grp n >= 3 | None -> true)
-         && List.for_all (List.for_all (fun (_, s) -> s = Some N0)) plans in
+         List.for_all (fun (n, s) -> match s with Some s -> s = shf n && grp n < 3 | None -> grp n >= 3) fb
+         && (match pick with Some (n, Some s) -> s = shf n && grp n < 3 | Some (n, None) -> grp n >= 3 | None -> true)
+         && List.for_all (List.for_all (fun (n, s) -> match s with
+             | Some s -> if grp n < 3 then s = shf n else below n s
+             | None -> false)) plans in
        (* the property is about PLANS: only a rejected plan, or a plan whose first target is not an
           acceptable pick, is a violation; pick() / fallback() observed on their own that the
           acceptors refuse (e.g. pick() returning None more often) are a broken correspondence *)
